@@ -187,6 +187,9 @@ class FortranCodegen(Stringifier):
             spec += self.join_lines(*access_spec) + '\n'
             if decl_part:
                 spec += self.visit(decl_part, **kwargs) + '\n'
+            # The parts are joined like lines: drop the newline after the last one,
+            # otherwise every write/read cycle adds one more empty line to the spec
+            spec = spec[:-1]
         else:
             spec = self.visit(o.spec, **kwargs)
         self.depth -= self.style.module_spec_indent
